@@ -1,5 +1,5 @@
 (* Properties/C16.v — !append / !extend / !prev move and grow existing content without loss. *)
-From AY Require Import Model.Merge Proofs.Ops Proofs.NodeInd.
+From AY Require Import Model.Merge Proofs.Ops Proofs.NodeInd Spec.Update Proofs.MergePlain Proofs.MergeNotNew Proofs.AppendE2E.
 
 (* p: !append L — for every older tree and every target reached by any path: the operator hands over the previous list
    (the very node found at p) followed by the elements of L, in order, content unchanged, and detaches it from the older tree *)
@@ -44,6 +44,43 @@ Theorem C16_detach_frame : forall k f x ch kk root' r,
   has_child root' kk = false /\ forall k2, k2 <> kk -> get_child root' k2 = get_child (Comp k f x ch) k2.
 Proof. exact remove_key_frame. Qed.
 Print Assumptions C16_detach_frame.
+
+(* ---- end to end (extension round): the whole of root.merge(doc) - premerge (detach, extend) followed by the merge ----
+   For every tag-free config (any nesting, unique keys) that holds a list at a path q through mappings, and every document that is
+   a chain of one-entry mappings along q ending in `!append L` (any safety marks / metadata on the chain; L tag-free): the merge
+   succeeds and the content of the result is [app_at (content of the config) q (content of L)] ... *)
+Theorem C16_append_end_to_end : forall e ws fa xa chs root root' tf tx tch,
+  ws <> [] -> Forall WF ws -> Old root -> puk (erase root) -> dpath root (wkeys ws) ->
+  remove_node root (wkeys ws) = Some (Some (root', Comp CList tf tx tch)) ->
+  Forall (fun kc => Old (snd kc)) chs -> Forall (fun kc => puk (erase (snd kc))) chs ->
+  exists n, merge2 e root (wrap ws (Comp CAppend fa xa chs)) = Ok n /\
+            Some (erase n) = app_at (erase root) (wkeys ws) (map (fun kc => erase (snd kc)) chs).
+Proof. exact append_end_to_end. Qed.
+Print Assumptions C16_append_end_to_end.
+
+(* ... where app_at means: the value at q is the previous list followed by the elements of L, in order ... *)
+Theorem C16_append_result_at_path : forall q d l X, puk d -> app_at d q l = Some X ->
+  exists l0, pat d q = Some (PL l0) /\ pat X q = Some (PL (l0 ++ l)).
+Proof. exact app_at_at. Qed.
+Print Assumptions C16_append_result_at_path.
+
+(* ... and every path that leaves the spine of q keeps its value *)
+Theorem C16_append_every_other_path_kept : forall q d l X q', puk d -> app_at d q l = Some X -> diverge q q' -> pat X q' = pat d q'.
+Proof. exact app_at_frame. Qed.
+Print Assumptions C16_append_every_other_path_kept.
+
+(* non-vacuity of the end-to-end statement: the hypotheses hold of a nested config and a two-level chain *)
+Example C16_end_to_end_example :
+  let L v := Leaf LScalar F0 (SInt v) in
+  let lst := Comp CList F0 SNone [(KI 0, L 1); (KI 1, L 2)] in
+  let base := Comp CDict F0 SNone [(KS 1, Comp CDict F0 SNone [(KS 2, lst); (KS 5, L 9)]); (KS 3, L 7)] in
+  let ws := [(KS 1, F0, SNone); (KS 2, F0, SNone)] in
+  (exists root', remove_node base (wkeys ws) = Some (Some (root', lst))) /\ dpath base (wkeys ws) /\
+  app_at (erase base) (wkeys ws) [PS (SInt 3)] =
+    Some (PD [(KS 1, PD [(KS 5, PS (SInt 9)); (KS 2, PL [PS (SInt 1); PS (SInt 2); PS (SInt 3)])]); (KS 3, PS (SInt 7))]) /\
+  option_map erase (match merge2 [] base (wrap ws (Comp CAppend F0 SNone [(KI 0, L 3)])) with Ok n => Some n | _ => None end) =
+    app_at (erase base) (wkeys ws) [PS (SInt 3)].
+Proof. vm_compute. repeat split; try reflexivity. eexists. reflexivity. Qed.
 
 Example C16_example :
   let L v := Leaf LScalar F0 (SInt v) in
